@@ -438,6 +438,10 @@ spif_mbuff_cmp(spif_mbuff_t self, spif_mbuff_t other)
 
     SPIF_OBJ_COMP_CHECK_NULL(self, other);
     c = memcmp(SPIF_MBUFF_BUFF(self), SPIF_MBUFF_BUFF(other), MIN(self->len, other->len));
+    if (c == 0) {
+        /* A proper prefix sorts first. */
+        c = (self->len < other->len) ? (-1) : ((self->len > other->len) ? (1) : (0));
+    }
     return SPIF_CMP_FROM_INT(c);
 }
 
@@ -445,9 +449,16 @@ spif_cmp_t
 spif_mbuff_cmp_with_ptr(spif_mbuff_t self, spif_byteptr_t other, spif_memidx_t len)
 {
     int c;
+    spif_memidx_t n;
 
     SPIF_OBJ_COMP_CHECK_NULL(self, other);
-    c = memcmp(SPIF_MBUFF_BUFF(self), other, len);
+    /* Compare len bytes, but never read past the end of self's block. */
+    n = MIN(len, self->size);
+    c = memcmp(SPIF_MBUFF_BUFF(self), other, n);
+    if ((c == 0) && (n < len)) {
+        /* self ended first:  a proper prefix sorts first. */
+        c = -1;
+    }
     return SPIF_CMP_FROM_INT(c);
 }
 
@@ -497,11 +508,16 @@ spif_mbuff_ncmp(spif_mbuff_t self, spif_mbuff_t other, spif_memidx_t cnt)
 {
     int c;
 
+    spif_memidx_t n1, n2;
+
     SPIF_OBJ_COMP_CHECK_NULL(self, other);
-    if (cnt > self->len || cnt > other->len) {
-        cnt = MIN(self->len, other->len);
+    /* Compare the first cnt bytes of each; a proper prefix sorts first. */
+    n1 = MIN(cnt, self->len);
+    n2 = MIN(cnt, other->len);
+    c = memcmp(SPIF_MBUFF_BUFF(self), SPIF_MBUFF_BUFF(other), MIN(n1, n2));
+    if (c == 0) {
+        c = (n1 < n2) ? (-1) : ((n1 > n2) ? (1) : (0));
     }
-    c = memcmp(SPIF_MBUFF_BUFF(self), SPIF_MBUFF_BUFF(other), cnt);
     return SPIF_CMP_FROM_INT(c);
 }
 
